@@ -5,6 +5,7 @@
 
 int main(int argc, char** argv) {
     verif::Args args = verif::Args::Parse(argc, argv);
+    const bool shard_replay = verif::ParseShardReplay(args);
     verif::Result res;
     res.tier = args.tier;
     res.seed = args.seed;
@@ -20,14 +21,20 @@ int main(int argc, char** argv) {
     if (args.sub == "c13") {
         c13::Run(args, res);
     } else if (args.sub == "c15") {
-        verif::QuietStdout quiet;
-        c15::Run(args, res);
+        res.property = "C15";
+        verif::RunIsolated(res, [&](verif::Result& r) {
+            verif::QuietStdout quiet;
+            c15::Run(args, r);
+        });
     } else if (args.sub == "c16") {
-        verif::QuietStdout quiet;
-        c16::Run(args, res);
+        res.property = "C16";
+        verif::RunIsolated(res, [&](verif::Result& r) {
+            verif::QuietStdout quiet;
+            c16::Run(args, r);
+        });
     } else {
         std::fprintf(stderr, "usage: periph c13|c15|c16 [--tier t] [--seed n] [--out f] [--replay s]\n");
         return 2;
     }
-    return res.Write(args.out.c_str()) ? 0 : 2;
+    return verif::Finish(args, res, shard_replay);
 }
